@@ -65,7 +65,7 @@ BOUNDS = {
                  'configs': 'same, propagation graphs also with 16-bit '
                             'activations'},
 }
-REACH = {'case': ['compared']}
+REACH = {'case': ['compared'], 'model': ['carried']}
 F32 = z3.Float32()
 _Op = qtyping.TFLOperationName
 
@@ -490,6 +490,70 @@ def job_case(job):
   return JobResult(job.name, st.as_dict(), cands, inconc, {}, samples=samples)
 
 
+# ---------------------------------------------------------------------------
+# model level: the rewritten model carries the generated parameters
+# (composition: generated parameters == spec is decided above; here the whole
+# real pipeline runs and every operand/result of every operator in the final
+# model is compared, as terms over the symbolic statistics, with the
+# parameters the real ParamsGenerator produced for that (tensor, operator))
+# ---------------------------------------------------------------------------
+MODEL_SKELS = ['single_CONCATENATION', 'single_CONCAT_SAME', 'single_FC',
+               'single_ADD', 'single_SPLIT', 'chain_fc_tanh',
+               'tensor_feeds_concat_and_other', 'tanh_concat_same',
+               'chain_fc_reshape_softmax', 'tensor_2_consumers', 'diamond',
+               'intermediate_is_output', 'fc_fc', 'split_add',
+               'two_subgraphs_independent']
+MODEL_RECIPES = ('shipped:default_a8w8_recipe.json',
+                 'shipped:default_a16w8_recipe.json',
+                 'shipped:default_af32w8float_recipe.json')
+
+
+def oracle_model(e, out):
+  if out.raised is not None or out.params is None:
+    return
+  e.reach('carried')
+  for where, cond, what in oracles.carried_params(out.input_model, out.model,
+                                                  out.params):
+    e.check('C04.model.operator_sees_the_generated_parameters',
+            cond if isinstance(cond, bool) else cond, info=[where, what])
+
+
+def model_cases(tier):
+  fam = P.skeleton_family(tier)
+  names = [k for k in MODEL_SKELS if k in fam] if tier == 'quick' else [
+      k for k in fam]
+  cs = []
+  for skel in names:
+    rf = P.recipe_family(fam[skel], tier)
+    for rname in rf:
+      if rname in MODEL_RECIPES or rname.startswith('only:') or \
+          rname.startswith('optype:'):
+        cs.append((skel, rname))
+  return cs
+
+
+def job_model(job):
+  tier = job.args['tier']
+  fam = P.skeleton_family(tier)
+  st = Stats()
+  cands, inconc, samples = [], [], []
+  for skel, rname in job.args['cases']:
+    recipe = P.recipe_family(fam[skel], tier)[rname]
+    en, cs = P.explore_case(skel, rname, fam[skel], recipe, oracle_model,
+                            max_paths=600, wall_s=120)
+    st.merge(en.stats)
+    inconc += [f'{skel}/{rname}: {x}' for x in en.inconclusive]
+    for c in cs[:2]:
+      c.data['tag'] = 'model'
+      c.job = job.name
+      cands.append(c)
+    if len(samples) < 2:
+      samples.append(f'{skel} x {rname}: operands/results of every operator '
+                     'in the rewritten model vs generated parameters '
+                     f'({en.stats.obligations} obligations)')
+  return JobResult(job.name, st.as_dict(), cands, inconc, {}, samples=samples)
+
+
 def jobs(tier, seed):
   cs = [(s, r) for s, r, _ in cases(tier)]
   js = []
@@ -497,6 +561,10 @@ def jobs(tier, seed):
   for i in range(0, len(cs), chunk):
     js.append(Job(f'case:{i // chunk}', job_case,
                   {'tier': tier, 'cases': cs[i:i + chunk]}))
+  mc = model_cases(tier)
+  for i in range(0, len(mc), 8):
+    js.append(Job(f'model:{i // 8}', job_model,
+                  {'tier': tier, 'cases': mc[i:i + 8]}))
   return js
 
 
@@ -520,8 +588,30 @@ def _np_zp_scale(mn, mx, bits, sym):
     return zp, sc
 
 
+def _replay_model(d):
+  r = P.replay_public(d['skeleton'], d['recipe'], d.get('stats'))
+  out = r['outcome']
+  if out.raised is not None:
+    return False, 'model', f'raises {type(out.raised).__name__}'
+  q = r['quantizer']
+  inp = out.input_model
+  qsvs = P.concrete_qsvs(inp, d.get('stats')) if q.need_calibration else None
+  mb = P.model_bytes_of(d['skeleton'])
+  with np.errstate(all='ignore'):
+    params = params_generator.ParamsGenerator(
+        mb).generate_quantization_parameters(q._recipe_manager, qsvs)
+  bad = [f'{w}: {what}' for w, cond, what in oracles.carried_params(
+      inp, out.model, params) if cond is not True]
+  if not bad and d.get('concretize') == 'unsat':
+    return 'drop', 'spurious', ''
+  return bool(bad), 'model carries other parameters than generated', (
+      f"skeleton={d['skeleton']} recipe={d['recipe']}: {bad[:3]}")
+
+
 def replay(c):
   d = c['data']
+  if d.get('tag') == 'model':
+    return _replay_model(d)
   fam = dict(P.skeleton_family('thorough'))
   if d['skeleton'].startswith('dag'):
     fam.update(P.skeleton_family('thorough_dags',
